@@ -34,3 +34,26 @@ Definition spec_e2e (c : option Z * option Z * bool * int_ty * list Z) : bool :=
   forallb (fitsb obs) ends && forallb (fitsb obs) lits &&
   (int_ty_eqb obs Unbounded ||
    (negb ext && match lo, hi with Some _, Some _ => true | _, _ => false end)).
+
+(* ---- set operations and parenthesised markers (component path through the PER-visible fold) *)
+Require Export RasnV.Model.PerVisible RasnV.Spec.Subtype RasnV.Corr.C04.
+
+(* model: width of a component / element constrained by one serial list of constraints *)
+Definition component_type (cs : list constraint) : option int_ty :=
+  match per_visible_range_constraints (fuel_cs cs) true cs with
+  | Ok r => Some (int_type_token (rmin r) (rmax r) (rext r))
+  | _ => None
+  end.
+
+Definition corr_component (c : list constraint * int_ty) : bool :=
+  let '(cs, obs) := c in
+  match component_type cs with Some t => int_ty_eqb t obs | None => false end.
+
+Definition finite_piv (p : piv) : bool := match p with IV (Some _) (Some _) => true | _ => false end.
+
+(* oracle: holds every permitted probe value; fixed width only if unmarked with finite effective bounds *)
+Definition spec_setop (c : flat * bool * int_ty) : bool :=
+  let '(f, marker, obs) := c in
+  if negb (forallb ranges_ok (fst f)) then true else
+  forallb (fun z => implb (semb_flat f z) (fitsb obs z)) (probes f)
+  && (int_ty_eqb obs Unbounded || (negb marker && negb (existsb elem_x (fst f)) && finite_piv (pv_flat f))).
